@@ -12,6 +12,7 @@
 package main
 
 import (
+	"bytes"
 	"context"
 	"crypto/ecdsa"
 	"flag"
@@ -182,6 +183,10 @@ func oneChain(f ek.Fork, r *rand.Rand, nBlocks, txPerBlock int, tr *tl.Trace, su
 		contracts = append(contracts, common.BytesToAddress([]byte{0xc0, byte(i + 1)}))
 	}
 	feeder := common.BytesToAddress([]byte{0xc0, 0xfe})
+	// refunder clears the pre-filled storage slot named by the first calldata word (refund counter > 0); it is
+	// called with long calldata so that from Prague on the calldata floor exceeds the gas used after the refund
+	refunder := common.BytesToAddress([]byte{0xc0, 0xfd})
+	refundSlots := 0
 	targets := append([]common.Address{}, contracts...)
 	targets = append(targets, senders[0].addr, senders[1].addr, coinbase, ek.NoSuch, common.BytesToAddress([]byte{2}), common.BytesToAddress([]byte{4}))
 	alloc := types.GenesisAlloc{}
@@ -191,6 +196,12 @@ func oneChain(f ek.Fork, r *rand.Rand, nBlocks, txPerBlock int, tr *tl.Trace, su
 	for _, c := range contracts {
 		alloc[c] = types.Account{Balance: big.NewInt(int64(1000 + r.Intn(5000))), Code: ek.LedgerContract(r, targets, 1), Nonce: 1}
 	}
+	rst := map[common.Hash]common.Hash{}
+	for n := 1; n <= 64; n++ {
+		rst[common.BigToHash(big.NewInt(int64(n)))] = common.Hash{31: 1}
+	}
+	alloc[refunder] = types.Account{Balance: big.NewInt(1), Nonce: 1, Storage: rst,
+		Code: ek.NewAsm().Push(0).Push(0).Op(vm.CALLDATALOAD, vm.SSTORE, vm.STOP).Bytes()}
 	alloc[feeder] = types.Account{Balance: big.NewInt(5000), Code: ek.PhoenixFeeder(coinbase, 5), Nonce: 1}
 	if f.Idx >= ek.Cancun {
 		alloc[params.BeaconRootsAddress] = types.Account{Code: params.BeaconRootsCode, Nonce: 1}
@@ -227,6 +238,11 @@ func oneChain(f ek.Fork, r *rand.Rand, nBlocks, txPerBlock int, tr *tl.Trace, su
 			case k == 0 && i == 0: // once per chain: ether sent to an account destroyed in the same transaction
 				t := feeder
 				to = &t
+			case k == 1 && refundSlots < 64: // once per block: storage refund under long calldata
+				t := refunder
+				to = &t
+				refundSlots++
+				data = append(common.BigToHash(big.NewInt(int64(refundSlots))).Bytes(), bytes.Repeat([]byte{0xff}, 600+200*(refundSlots%6))...)
 			case c < 6:
 				t := contracts[r.Intn(len(contracts))]
 				to = &t
